@@ -30,12 +30,12 @@ type c13Accepted struct {
 type c13State struct {
 	// answerHeads: per client, the sizes of the heads carried by answers of its successful lookups
 	answerHeads map[int][]int64
-	w        *sw.World
-	res      *core.Result
-	unis     []*sw.Universe
-	k        int64
-	accepted map[int][]c13Accepted // per client id
-	mask     map[int]int
+	w           *sw.World
+	res         *core.Result
+	unis        []*sw.Universe
+	k           int64
+	accepted    map[int][]c13Accepted // per client id
+	mask        map[int]int
 }
 
 func (st *c13State) lineageOfHead(n int64, h ref.Hash) int {
